@@ -285,7 +285,8 @@ const fn encode_segment_node(size: u32, next: u32) -> u64 {
 #[inline]
 pub const fn align_offset<T>(current_offset: u32) -> u32 {
   let alignment = core::mem::align_of::<T>() as u32;
-  (current_offset + alignment - 1) & !(alignment - 1)
+  // `alignment - 1` first: `current_offset + alignment` may not fit although the result does
+  (current_offset + (alignment - 1)) & !(alignment - 1)
 }
 
 /// Like [`align_offset`], but `None` when the aligned offset does not fit in `u32`
